@@ -106,6 +106,13 @@ func loadKnown(path string) KnownFile {
 // finish classifies, prints, writes evidence, returns exit code.
 func (c *Ctx) finish(verifDir string, t0 time.Time, seed int) int {
 	known := loadKnown(filepath.Join(verifDir, "known_findings.json"))
+	// what later rounds added to the property's decided clauses (one source for the evidence explanation and the manifest)
+	if b, err := os.ReadFile(filepath.Join(verifDir, "engine", "additions.json")); err == nil {
+		add := map[string]string{}
+		if json.Unmarshal(b, &add) == nil && add[c.Prop] != "" && !strings.Contains(c.Explain, add[c.Prop]) {
+			c.Explain += " " + add[c.Prop]
+		}
+	}
 	isKnown := func(o Ob) *KnownFinding {
 		for i := range known.Known {
 			k := &known.Known[i]
